@@ -174,6 +174,12 @@ package impl
 //@   ensures [pause-rule] err == nil ==> (calls(Channels.PauseResponder) == 1) == (result.LeaveRequestPaused(chst) && !chst.ResponderPaused()) &&
 //@       (calls(Channels.ResumeResponder) == 1) == (!result.LeaveRequestPaused(chst) && chst.ResponderPaused())
 //@   ensures [pause-last] calls(Channels.PauseResponder) + calls(Channels.ResumeResponder) == 1 ==> (last(Channels.PauseResponder) || last(Channels.ResumeResponder))
+//@   ensures [failure-reported] {C04,C08} (calls(Channels.NewVoucherResult) == 1 && ret(Channels.NewVoucherResult, 0) != nil ==> err == ret(Channels.NewVoucherResult, 0) && last(Channels.NewVoucherResult)) &&
+//@       (calls(Channels.SetDataLimit) == 1 && ret(Channels.SetDataLimit, 0) != nil ==> err == ret(Channels.SetDataLimit, 0) && last(Channels.SetDataLimit)) &&
+//@       (calls(Channels.SetRequiresFinalization) == 1 && ret(Channels.SetRequiresFinalization, 0) != nil ==> err == ret(Channels.SetRequiresFinalization, 0) && last(Channels.SetRequiresFinalization)) &&
+//@       (calls(Channels.PauseResponder) == 1 && ret(Channels.PauseResponder, 0) != nil ==> err == ret(Channels.PauseResponder, 0)) &&
+//@       (calls(Channels.ResumeResponder) == 1 && ret(Channels.ResumeResponder, 0) != nil ==> err == ret(Channels.ResumeResponder, 0))
+//@       -- an event that could not be recorded is reported, and nothing further is recorded after it
 
 //@ func (*impl.manager).validateRestart {C04,C10}
 //@   acquires {C20} registry.Registry.registryLk
@@ -218,7 +224,8 @@ package impl
 //@   ensures [restart-first-effect] calls(Channels.Restart) == 1 ==> before(Channels.Restart, manager.recordAcceptedValidationEvents) &&
 //@       before(Channels.Restart, TransportOptions.ApplyOptions) && before(Channels.Restart, DataTransferNetwork.Protect)
 //@   ensures [refusals-do-not-stay-paused] {C11} (m.peerID == chid.Initiator ==> !result0) &&
-//@       (calls(manager.validateRestartRequest) == 1 && ret(manager.validateRestartRequest, 0) != nil ==> !result0)
+//@       (calls(manager.validateRestartRequest) == 1 && ret(manager.validateRestartRequest, 0) != nil ==> !result0) &&
+//@       (calls(GetByID) >= 1 && ret(GetByID, 1) != nil ==> !result0 && err == ret(GetByID, 1) && !result1.Accepted)
 //@   ensures [stops-at-first-failure] {C04} (calls(Channels.Restart) == 1 && ret(Channels.Restart, 0) != nil ==> err != nil && last(Channels.Restart)) &&
 //@       (calls(manager.recordAcceptedValidationEvents) == 1 && ret(manager.recordAcceptedValidationEvents, 0) != nil ==>
 //@           err == ret(manager.recordAcceptedValidationEvents, 0) && never(TransportOptions.ApplyOptions) && never(DataTransferNetwork.Protect)) &&
@@ -630,6 +637,8 @@ package impl
 //@   requires [registered-callbacks-nonnil] dyntype_is(fn, datatransfer.ReadyFunc) ==> fn.(datatransfer.ReadyFunc) != nil
 //@   ensures [delivers-outcome] result == nil ==> seq(dyn.ReadyFunc) && all(dyn.ReadyFunc, $1 == evt)
 //@   ensures [at-most-once] calls(dyn.ReadyFunc) <= 1 && only(dyn.ReadyFunc)
+//@   ensures [outcome-delivered] {C13} dyntype_is(fn, datatransfer.ReadyFunc) && (evt == nil || implements(evt, error)) ==> result == nil && calls(dyn.ReadyFunc) == 1
+//@   ensures [wrong-types-refused] {C13} !dyntype_is(fn, datatransfer.ReadyFunc) || (evt != nil && !implements(evt, error)) ==> result != nil && never(dyn.ReadyFunc)
 
 // ---------------------------------------------------------------------------------------------
 // event fan-out (C17) and transfer ids (C18)
